@@ -186,6 +186,12 @@ def run(ctx):
                         "no mock-induced panic under a controlled schedule")
         total_eval += ctl["executions"] + st["executions"]
         total_distinct += ctl["distinct_schedules"]
+        if ctx.prop == "C02":
+            # single-use values over composite return shapes (C12 workloads): the second request must panic
+            su, v3 = engine_c.run_sched(ctx, "c12", 160 if ctx.tier == "quick" else 4000)
+            engine_c.report(ctx, v3, "C02", "single-use values over return shapes")
+            concurrent["single_use_shape_executions"] = su["executions"]
+            total_eval += su["executions"]
 
     compile_probe = None
     if ctx.prop == "C14":
